@@ -35,7 +35,36 @@ func init() { log.SetOutput(io.Discard) }
 const hardT = 20 * time.Second
 const waitT = 3 * time.Second // socket-level timeouts (dial, handshake reads)
 
-func softT(attempt int) time.Duration { return 3 * time.Second << uint(attempt-1) }
+func softT(attempt int) time.Duration {
+	if lossSeen >= lossPatience {
+		return 400 * time.Millisecond
+	}
+	return 2 * time.Second << uint(attempt-1)
+}
+
+// A case that loses bytes deterministically runs into the count-based bound on every attempt (2 s + 4 s, the same
+// observation twice ends the re-measuring). A tree that loses bytes does so in many cases: after `lossPatience` such
+// cases the process stops paying for patience (one attempt, 400 ms) — by then the run has its failing inputs, and a
+// candidate of the shrinker is re-run in a fresh process before it is reported.
+const lossPatience = 2
+
+var (
+	lossSeen int
+	softHits int // count-based waits that ran into their bound (one case at a time per process)
+)
+
+func maxAttempts() int {
+	if lossSeen >= lossPatience {
+		return 1
+	}
+	return 3
+}
+
+func softWait(attempt int, abort <-chan struct{}, f func() bool) {
+	if waitFor(softT(attempt), abort, f) == wTimeout {
+		softHits++
+	}
+}
 
 const (
 	wOK = iota
@@ -212,6 +241,14 @@ func newUpstreamSlow(slow bool) (*upstream, error) { return newUpstreamFunc(nil,
 // newUpstreamFunc: `greet` (optional) runs on the accepted connection before the recorder is attached; if it
 // returns false the connection does not count as accepted.
 func newUpstreamFunc(greet func(net.Conn, *endpoint) bool, slow bool) (*upstream, error) {
+	l, err := pickListener()
+	if err != nil {
+		return nil, err
+	}
+	return upstreamOn(l, greet, slow), nil
+}
+
+func pickListener() (*net.TCPListener, error) {
 	if len(upPool) < upPoolSize {
 		l, err := listenRetry()
 		if err != nil {
@@ -221,6 +258,12 @@ func newUpstreamFunc(greet func(net.Conn, *endpoint) bool, slow bool) (*upstream
 	}
 	l := upPool[upPoolNext%len(upPool)]
 	upPoolNext++
+	return l, nil
+}
+
+// upstreamOn arms a one-connection endpoint on a listener of the pool (a case that runs an earlier connection
+// through the same handler first arms the same listener twice, one after the other).
+func upstreamOn(l *net.TCPListener, greet func(net.Conn, *endpoint) bool, slow bool) *upstream {
 	// nothing may be pending from an earlier case
 	l.SetDeadline(time.Now())
 	for {
@@ -245,7 +288,7 @@ func newUpstreamFunc(greet func(net.Conn, *endpoint) bool, slow bool) (*upstream
 		u.ep.attach(c)
 		close(u.accepted)
 	}()
-	return u, nil
+	return u
 }
 
 func (u *upstream) addr() string { return u.l.Addr().String() }
@@ -269,6 +312,14 @@ func (u *upstream) close() {
 }
 
 func writeSegs(c net.Conn, segs [][]byte, paced bool) {
+	gap := time.Duration(0)
+	if paced {
+		gap = time.Millisecond
+	}
+	writeSegsGap(c, segs, gap)
+}
+
+func writeSegsGap(c net.Conn, segs [][]byte, gap time.Duration) {
 	for _, s := range segs {
 		if len(s) == 0 {
 			continue
@@ -276,8 +327,8 @@ func writeSegs(c net.Conn, segs [][]byte, paced bool) {
 		if _, err := c.Write(s); err != nil {
 			return
 		}
-		if paced {
-			time.Sleep(time.Millisecond)
+		if gap > 0 {
+			time.Sleep(gap)
 		}
 	}
 }
@@ -304,6 +355,22 @@ type tunIn struct {
 	Burst     int      `json:"burst,omitempty"`     // a final client burst of this many bytes (pattern burstByte)
 	BurstSeed int      `json:"burst_seed,omitempty"`
 	SlowUp    bool     `json:"slowup,omitempty"`    // the upstream is a slow consumer
+	// The handler object is long-lived: an earlier connection (other addresses, own short stream) goes through the
+	// same handler instance before the measured one.
+	Warm *warmJ `json:"warm,omitempty"`
+	// tcp transport: the listener's read/write timeouts (tcp.Server.ReadTimeout/WriteTimeout, the `rt=`/`wt=`
+	// listener options) and a steady trickle: `cgap_ms`/`ugap_ms` between the client's / the upstream's segments.
+	// Every single gap is well below the timeout, the whole exchange lasts several timeouts.
+	RtMs   int `json:"rt_ms,omitempty"`
+	WtMs   int `json:"wt_ms,omitempty"`
+	CgapMs int `json:"cgap_ms,omitempty"`
+	UgapMs int `json:"ugap_ms,omitempty"`
+}
+
+type warmJ struct {
+	Raddr addrJ  `json:"raddr"`
+	Laddr addrJ  `json:"laddr"`
+	Data  string `json:"data"` // hex: the whole client stream of the earlier connection (sni: hello included)
 }
 
 type tunOut struct {
@@ -319,6 +386,11 @@ type tunOut struct {
 	Served   bool   `json:"served"` // ServeTCP returned / client connection ended within the bound
 	Raddr    string `json:"raddr"`  // in.RemoteAddr().String()
 	Laddr    string `json:"laddr"`
+	// the earlier connection through the same handler (input field `warm`)
+	WarmUp     string `json:"warm_up,omitempty"` // what the upstream received on it
+	WarmLookup string `json:"warm_lookup,omitempty"`
+	WarmRaddr  string `json:"warm_raddr,omitempty"`
+	WarmLaddr  string `json:"warm_laddr,omitempty"`
 }
 
 func decodeHexes(hs []string) ([][]byte, int, error) {
@@ -349,9 +421,10 @@ func helloComplete(s []byte) bool {
 // runTunnel measures a case; an outcome that is not the expected one (or a harness timeout) is measured again in
 // a fresh run, at most three attempts. A deterministic failure fails every attempt; `attempts` is recorded.
 func runTunnel(raw json.RawMessage) (interface{}, error) {
-	var out tunOut
+	var out, prev tunOut
 	var err error
-	for a := 1; a <= 3; a++ {
+	hits0 := softHits
+	for a, n := 1, maxAttempts(); a <= n; a++ {
 		var o interface{}
 		o, err = runTunnelOnce(raw, a)
 		if err != nil {
@@ -365,9 +438,16 @@ func runTunnel(raw json.RawMessage) (interface{}, error) {
 		if out.expected {
 			break
 		}
+		if a >= 2 && out.Up == prev.Up && out.Cl == prev.Cl && out.BurstGot == prev.BurstGot && out.WarmUp == prev.WarmUp {
+			break // the same observation twice: not the scheduler
+		}
+		prev = out
 	}
 	if err != nil {
 		return nil, err
+	}
+	if !out.expected && softHits > hits0 {
+		lossSeen++
 	}
 	return out, nil
 }
@@ -419,6 +499,18 @@ func runTunnelOnce(raw json.RawMessage, attempt int) (interface{}, error) {
 	if in.Burst < 0 || in.Burst > 64<<20 || in.PauseMs < 0 || in.PauseMs > 2000 || in.DialMs < 0 || in.Hold < 0 {
 		return nil, errors.New("burst/pause/dial out of range")
 	}
+	if in.RtMs < 0 || in.WtMs < 0 || in.CgapMs < 0 || in.UgapMs < 0 || in.CgapMs > 500 || in.UgapMs > 500 ||
+		(in.RtMs > 0 && 3*in.CgapMs > in.RtMs) || (in.WtMs > 0 && 3*in.UgapMs > in.WtMs) ||
+		(in.RtMs > 0 && in.RtMs < 100) || (in.WtMs > 0 && in.WtMs < 100) {
+		// a gap is at most a third of the timeout: no single read or write comes near its deadline
+		return nil, errors.New("timeouts/gaps out of range")
+	}
+	var wstream []byte
+	if in.Warm != nil {
+		if wstream, err = hex.DecodeString(in.Warm.Data); err != nil {
+			return nil, err
+		}
+	}
 	// the burst goes out after the scripted segments, before the terminal event
 	var burstChunks [][]byte
 	for off := 0; off < in.Burst; off += 256 * 1024 {
@@ -449,12 +541,11 @@ func runTunnelOnce(raw json.RawMessage, attempt int) (interface{}, error) {
 		dialT = time.Duration(in.DialMs) * time.Millisecond
 	}
 
-	up, err := newUpstreamSlow(in.SlowUp)
+	upl, err := pickListener()
 	if err != nil {
 		return nil, err
 	}
-	defer up.close()
-	upAddr := up.addr()
+	upAddr := upl.Addr().String()
 
 	// proxy listener for the tcp transport (needed before the table: the route names its port)
 	var pl net.Listener
@@ -500,17 +591,35 @@ func runTunnelOnce(raw json.RawMessage, attempt int) (interface{}, error) {
 	if in.Pxy {
 		opts += " pxyproto=true"
 	}
-	tbl, err := route.NewTable(bytes.NewBufferString("route add svc " + src + " tcp://" + upAddr + ` opts "` + opts + `"`))
+	srcs := []string{src}
+	if in.Warm != nil && in.Routed && in.Path != "sni" {
+		// the earlier connection arrives on its own local address: same target
+		wsrc := ":" + strconv.Itoa(in.Warm.Laddr.Port)
+		if in.Path == "dyn" && in.DynRoute == "full" {
+			wsrc = in.Warm.Laddr.tcpAddr().String()
+		}
+		if wsrc != src {
+			srcs = append(srcs, wsrc)
+		}
+	}
+	var defs bytes.Buffer
+	for _, sr := range srcs {
+		defs.WriteString("route add svc " + sr + " tcp://" + upAddr + ` opts "` + opts + `"` + "\n")
+	}
+	tbl, err := route.NewTable(&defs)
 	if err != nil {
 		return nil, err
 	}
-	var lookupState atomic.Int32 // 0 not called, 1 miss, 2 hit
+	var warmLookup, mainLookup atomic.Int32 // 0 not called, 1 miss, 2 hit
+	var lookupState atomic.Pointer[atomic.Int32]
+	lookupState.Store(&mainLookup)
 	lookup := func(h string) *route.Target {
 		t := tbl.LookupHost(h, route.Picker["rr"])
+		st := lookupState.Load()
 		if t != nil {
-			lookupState.Store(2)
-		} else if lookupState.Load() == 0 {
-			lookupState.Store(1)
+			st.Store(2)
+		} else if st.Load() == 0 {
+			st.Store(1)
 		}
 		return t
 	}
@@ -523,6 +632,47 @@ func runTunnelOnce(raw json.RawMessage, attempt int) (interface{}, error) {
 	case "sni":
 		h = &tcp.SNIProxy{Lookup: lookup, DialTimeout: dialT}
 	}
+
+	var herr error
+	must := func(what string, st int) {
+		if st == wTimeout && herr == nil {
+			herr = harnessTimeout(what)
+		}
+	}
+
+	// the earlier connection through the same handler instance: a scripted client sends its stream and finishes
+	var warmOut tunOut
+	if in.Warm != nil {
+		lookupState.Store(&warmLookup)
+		wu := upstreamOn(upl, nil, false)
+		wsc := newScriptConn([]rEv{{0, wstream}, {1, nil}}, in.Warm.Laddr.tcpAddr(), in.Warm.Raddr.tcpAddr())
+		wsc.release()
+		wdone := make(chan struct{})
+		go func() {
+			defer close(wdone)
+			defer func() { recover() }()
+			h.ServeTCP(wsc)
+		}()
+		must("the earlier connection to be served", waitFor(hardT, nil, chanClosed(wdone)))
+		if warmLookup.Load() == 2 && herr == nil {
+			// dialled (the listener is listening): accepted, and read to the end
+			if st := waitFor(hardT, nil, wu.isAccepted); st == wOK {
+				must("the upstream to see the earlier connection end", waitFor(hardT, nil, wu.ep.ended))
+			}
+		}
+		wsc.Close()
+		wu.close()
+		if herr != nil {
+			return nil, herr
+		}
+		wb, _ := wu.ep.snapshot()
+		warmOut.WarmUp = hx2(wb)
+		warmOut.WarmLookup = []string{"none", "miss", "hit"}[warmLookup.Load()]
+		warmOut.WarmRaddr, warmOut.WarmLaddr = wsc.RemoteAddr().String(), wsc.LocalAddr().String()
+		lookupState.Store(&mainLookup)
+	}
+	up := upstreamOn(upl, nil, in.SlowUp)
+	defer up.close()
 
 	// client side
 	var sc *scriptConn
@@ -541,7 +691,7 @@ func runTunnelOnce(raw json.RawMessage, attempt int) (interface{}, error) {
 			h.ServeTCP(sc)
 		}()
 	} else {
-		srv := &tcp.Server{Handler: h}
+		srv := &tcp.Server{Handler: h, ReadTimeout: time.Duration(in.RtMs) * time.Millisecond, WriteTimeout: time.Duration(in.WtMs) * time.Millisecond}
 		go srv.Serve(pl)
 		defer srv.Close()
 		cc, err = net.DialTimeout("tcp", pl.Addr().String(), waitT)
@@ -557,6 +707,8 @@ func runTunnelOnce(raw json.RawMessage, attempt int) (interface{}, error) {
 				writeSegs(cc, cchunks[:hold], in.Paced)
 				time.Sleep(time.Duration(in.PauseMs) * time.Millisecond)
 				writeSegs(cc, cchunks[hold:], in.Paced)
+			} else if in.CgapMs > 0 {
+				writeSegsGap(cc, cchunks, time.Duration(in.CgapMs)*time.Millisecond)
 			} else {
 				writeSegs(cc, cchunks, in.Paced)
 			}
@@ -564,13 +716,6 @@ func runTunnelOnce(raw json.RawMessage, attempt int) (interface{}, error) {
 		}()
 	}
 	expectTunnel := in.Routed && (in.Path != "sni" || helloComplete(cstream))
-
-	var herr error
-	must := func(what string, st int) {
-		if st == wTimeout && herr == nil {
-			herr = harnessTimeout(what)
-		}
-	}
 
 	// phase A, upstream side
 	uwritten := make(chan struct{})
@@ -580,7 +725,7 @@ func runTunnelOnce(raw json.RawMessage, attempt int) (interface{}, error) {
 		defer close(uwritten)
 		select {
 		case <-up.accepted:
-			writeSegs(up.ep.c(), usegs, false)
+			writeSegsGap(up.ep.c(), usegs, time.Duration(in.UgapMs)*time.Millisecond)
 		case <-done:
 		case <-giveUp:
 		}
@@ -619,13 +764,13 @@ func runTunnelOnce(raw json.RawMessage, attempt int) (interface{}, error) {
 		if in.Pxy {
 			expUp += len(fmt.Sprintf("PROXY TCP4 %s %s %d %d\r\n", raddr.IP, laddr.IP, raddr.Port, laddr.Port))
 		}
-		waitFor(softT(attempt), nil, func() bool { return up.ep.n() >= expUp })
+		softWait(attempt, nil, func() bool { return up.ep.n() >= expUp })
 	}
 	if expectTunnel && in.Order != "upstream" {
 		// the client is about to finish: what the upstream has sent must have arrived first (bytes still in
 		// flight towards a side that has finished may legitimately be dropped). When the upstream finishes first
 		// its FIN follows its data, nothing to wait for.
-		waitFor(softT(attempt), done, func() bool { return clientRecv() >= ulen })
+		softWait(attempt, done, func() bool { return clientRecv() >= ulen })
 	}
 
 	served := true
@@ -731,13 +876,19 @@ func runTunnelOnce(raw json.RawMessage, attempt int) (interface{}, error) {
 	}
 	wantUp = append(wantUp, cstream...)
 	expected := !expectTunnel
-	if lookupState.Load() == 2 {
+	if mainLookup.Load() == 2 {
 		expected = bytes.Equal(upb, wantUp) && bytes.Equal(clb, wantCl) && bgot == in.Burst && bok
 	}
-	return tunOut{expected: expected, Up: hx2(upb), Cl: hx2(clb), Accepted: up.isAccepted(), UpEnd: upend, Served: served,
-		BurstGot: bgot, BurstOK: bok,
-		Lookup: []string{"none", "miss", "hit"}[lookupState.Load()],
-		Raddr: raddr.String(), Laddr: laddr.String()}, nil
+	if in.Warm != nil && warmLookup.Load() == 2 {
+		wb, _ := hex.DecodeString(warmOut.WarmUp)
+		expected = expected && bytes.HasSuffix(wb, wstream) && (in.Pxy || len(wb) == len(wstream))
+	}
+	res := warmOut
+	res.expected, res.Up, res.Cl, res.Accepted, res.UpEnd, res.Served = expected, hx2(upb), hx2(clb), up.isAccepted(), upend, served
+	res.BurstGot, res.BurstOK = bgot, bok
+	res.Lookup = []string{"none", "miss", "hit"}[mainLookup.Load()]
+	res.Raddr, res.Laddr = raddr.String(), laddr.String()
+	return res, nil
 }
 
 // ---- ClientHello capture from crypto/tls ----
@@ -910,14 +1061,66 @@ func genTunnelWith(r *hx.Rand, order string) tunIn {
 		if in.Csegs[len(in.Csegs)-1].E == "err" {
 			in.Csegs[len(in.Csegs)-1].E = "eof"
 		}
-	case len(segs) > 0 && r.Chance(1, 50):
+	case len(segs) > 0 && r.Chance(1, 100):
 		// a small configured dial timeout, and a client that goes on sending long after it
 		in.DialMs = r.Range(250, 350) // small, but far above what a loopback connect takes even on a loaded machine
-		in.PauseMs = 3*in.DialMs + 50
+		in.PauseMs = 3*in.DialMs/2 + 30 // a lower bound: a loaded machine only makes the client later
 		in.Hold = r.Intn(len(segs))
 		in.Pxy = !r.Chance(1, 3)
+	case r.Chance(1, 6):
+		in.Warm = genWarm(r, &in)
+	case in.Transport == "tcp" && order == "client" && r.Chance(1, 40):
+		genTrickle(r, &in, stream[:hl])
 	}
 	return in
+}
+
+// genWarm: an earlier connection through the same handler instance, arriving on other addresses (a listener
+// bound to a wildcard address accepts on every local address of the host; a handler object serves them all).
+func genWarm(r *hx.Rand, in *tunIn) *warmJ {
+	v6 := r.Chance(1, 4) && !(in.Path == "dyn" && in.DynRoute == "full")
+	w := &warmJ{Raddr: genAddr(r, v6), Laddr: genAddr(r, v6)}
+	w.Raddr.Zone, w.Laddr.Zone = "", ""
+	w.Laddr.Port = r.Range(2, 65535)
+	if r.Chance(1, 2) {
+		w.Laddr.Port = in.Laddr.Port
+	}
+	data := patBytes(r, r.Range(1, 20))
+	if in.Path == "sni" {
+		data = append(append([]byte(nil), clientHello(in.Host, r.Intn(4))...), data...)
+	}
+	w.Data = hx2(data)
+	return w
+}
+
+func trickleSegs(r *hx.Rand, n int) [][]byte {
+	var out [][]byte
+	for i := 0; i < n; i++ {
+		out = append(out, patBytes(r, r.Range(1, 30)))
+	}
+	return out
+}
+
+// genTrickle: the listener has a read and/or write timeout T and both sides send a steady trickle of small
+// segments, every gap at most T/3, for more than two timeouts in all.
+func genTrickle(r *hx.Rand, in *tunIn, hello []byte) {
+	T := r.Range(150, 250)
+	gap := r.Range(T/5, T/3)
+	n := 2*T/gap + 2
+	mode := r.Intn(3) // 0: write timeout, 1: read timeout, 2: both
+	if mode != 1 {
+		in.WtMs, in.UgapMs = T, gap
+		in.Usegs = hexes(trickleSegs(r, n))
+	}
+	if mode != 0 {
+		in.RtMs, in.CgapMs = T, gap
+		// the client's trickle outlasts the upstream's: the connection is never idle before the client finishes
+		segs := trickleSegs(r, n+2)
+		if len(hello) > 0 {
+			segs = append([][]byte{hello}, segs...)
+		}
+		in.Csegs = append(chunks(segs), segJ{E: "eof"})
+	}
 }
 
 func genTunnel(r *hx.Rand, i int) interface{} {
@@ -948,7 +1151,7 @@ func tunnelCorpus() []interface{} {
 				Csegs: cs, Usegs: []string{}, Order: "halfclose", Reply: []string{hx2([]byte("REPLY"))}, Paced: true})
 		}
 	}
-	// late client data: configured dial timeout 300 ms, PROXY option, the client goes on after 950 ms
+	// late client data: configured dial timeout 300 ms, PROXY option, the client goes on after 500 ms
 	for _, p := range []string{"tcp", "sni", "dyn"} {
 		cs := []segJ{{C: hx2([]byte("early"))}, {C: hx2([]byte("late-1"))}, {C: hx2([]byte("late-2"))}, {E: "eof"}}
 		hold := 1
@@ -958,7 +1161,7 @@ func tunnelCorpus() []interface{} {
 		}
 		for _, tr := range []string{"script", "tcp"} {
 			out = append(out, tunIn{Path: p, Transport: tr, Routed: true, Pxy: true, Host: "a.example", Raddr: a4, Laddr: l4, DynRoute: "port",
-				Csegs: cs, Usegs: []string{hx2([]byte("srv"))}, Order: "client", Reply: []string{}, DialMs: 300, PauseMs: 950, Hold: hold})
+				Csegs: cs, Usegs: []string{hx2([]byte("srv"))}, Order: "client", Reply: []string{}, DialMs: 300, PauseMs: 500, Hold: hold})
 		}
 	}
 	// the client finishes first with a large final burst, the upstream consumes slowly
@@ -973,6 +1176,42 @@ func tunnelCorpus() []interface{} {
 		}
 		out = append(out, tunIn{Path: p, Transport: tr, Routed: true, Pxy: i%2 == 0, Host: "a.example", Raddr: a4, Laddr: l4, DynRoute: "port",
 			Csegs: cs, Usegs: []string{}, Order: "client", Reply: []string{}, Burst: (3 + i) << 20, BurstSeed: 7 * i, SlowUp: true})
+	}
+	// the handler has served a connection that arrived on another local address (and port) before
+	for i, p := range []string{"tcp", "sni", "dyn", "tcp"} {
+		cs := []segJ{{C: hx2([]byte("second"))}, {E: "eof"}}
+		wd := []byte("first")
+		if p == "sni" {
+			cs = append([]segJ{{C: hx2(hello)}}, cs...)
+			wd = append(append([]byte(nil), hello...), wd...)
+		}
+		w := &warmJ{Raddr: addrJ{IP: "192.168.1.254", Port: 4000 + i}, Laddr: addrJ{IP: "10.0.0.2", Port: 7000 + i/3}, Data: hx2(wd)}
+		out = append(out, tunIn{Path: p, Transport: []string{"script", "tcp"}[i/3], Routed: true, Pxy: true, Host: "a.example", Raddr: a4, Laddr: l4, DynRoute: "port",
+			Csegs: cs, Usegs: []string{hx2([]byte("srv"))}, Order: "client", Reply: []string{}, Warm: w})
+	}
+	// listener timeouts (rt=/wt=) and a steady trickle that lasts several timeouts
+	for i, p := range []string{"tcp", "sni", "dyn"} {
+		var cs []segJ
+		if p == "sni" {
+			cs = append(cs, segJ{C: hx2(hello)})
+		}
+		var us []string
+		for k := 0; k < 12; k++ {
+			cs = append(cs, segJ{C: hx2([]byte(fmt.Sprintf("c%02d.", k)))})
+			if k < 10 {
+				us = append(us, hx2([]byte(fmt.Sprintf("message %04d\n", k))))
+			}
+		}
+		cs = append(cs, segJ{E: "eof"})
+		t := tunIn{Path: p, Transport: "tcp", Routed: true, Pxy: i == 1, Host: "a.example", Raddr: a4, Laddr: l4, DynRoute: "port",
+			Csegs: cs, Usegs: us, Order: "client", Reply: []string{}}
+		if i != 2 {
+			t.WtMs, t.UgapMs = 200, 50
+		}
+		if i != 0 {
+			t.RtMs, t.CgapMs = 200, 50
+		}
+		out = append(out, t)
 	}
 	// PROXY line, IPv6 client
 	out = append(out, tunIn{Path: "tcp", Transport: "script", Routed: true, Pxy: true, Raddr: addrJ{IP: "2001:db8::1", Port: 9}, Laddr: addrJ{IP: "::1", Port: 443},
